@@ -240,7 +240,9 @@ Definition nc_set_if_lower (n : noncer) (a v : N) : noncer :=
 Record config := mkCfg {
   price_limit : N; price_bump : N;
   account_slots : N; global_slots : N; account_queue : N; global_queue : N;
-  no_locals : bool; cfg_locals : list N
+  no_locals : bool; cfg_locals : list N;
+  gapfix : bool   (* does the working tree carry fixes/C20_pending_gap_after_partial_reinject.diff?
+                     (detected by the harness on every run; false = the code as it is today) *)
 }.
 
 Record pool := mkPool {
@@ -444,21 +446,28 @@ Fixpoint dedup (l : list N) : list N :=
 Definition order_by (ord : list N) (l : list N) : list N :=
   isort (fun a b => N.leb (pos_in ord a) (pos_in ord b)) (dedup l).
 
+(* Go mutates the *txList behind pool.queue[addr] / pool.pending[addr] in
+   place; the model writes the list back after every mutation, so that every
+   intermediate pool is the one Go has at that point. *)
+Definition put_q (p : pool) (a : N) (l : txlist) : pool := set_queue p (aset (queue p) a l).
+Definition put_p (p : pool) (a : N) (l : txlist) : pool := set_pending p (aset (pending p) a l).
+Definition enqueue_all (p : pool) (l : list tx) : pool :=
+  fold_left (fun p t => snd (enqueue_tx p t)) l p.
+
 (* promoteExecutables, one account *)
 Definition promote_account (p : pool) (addr : N) : pool :=
   match aget (queue p) addr with
   | None => p
   | Some l =>
     let '(forwards, l) := l_forward l (st_nonce (cur_state p) addr) in
-    let p := all_remove_list p forwards in
+    let p := all_remove_list (put_q p addr l) forwards in
     let '(drops, _, l) := l_filter l (st_balance (cur_state p) addr) (max_gas p) in
-    let p := all_remove_list p drops in
+    let p := all_remove_list (put_q p addr l) drops in
     let '(readies, l) := l_ready l (nc_get (pnonces p) addr) in
-    let p := fold_left (fun p t => snd (promote_tx p addr t)) readies p in
+    let p := fold_left (fun p t => snd (promote_tx p addr t)) readies (put_q p addr l) in
     let '(caps, l) := if negb (is_local p addr) then l_cap l (N.to_nat (account_queue (cfg p))) else ([], l) in
-    let p := all_remove_list p caps in
-    if l_empty l then set_queue p (adel (queue p) addr)
-    else set_queue p (aset (queue p) addr l)
+    let p := all_remove_list (put_q p addr l) caps in
+    if l_empty l then set_queue p (adel (queue p) addr) else p
   end.
 Definition promote_executables (p : pool) (accounts : list N) : pool :=
   fold_left promote_account accounts p.
@@ -470,17 +479,25 @@ Definition demote_account (p : pool) (addr : N) : pool :=
   | Some l =>
     let nonce := st_nonce (cur_state p) addr in
     let '(olds, l) := l_forward l nonce in
-    let p := all_remove_list p olds in
+    let p := all_remove_list (put_p p addr l) olds in
     let '(drops, invalids, l) := l_filter l (st_balance (cur_state p) addr) (max_gas p) in
-    let p := all_remove_list p drops in
-    let p := fold_left (fun p t => snd (enqueue_tx p t)) invalids p in
+    let p := all_remove_list (put_p p addr l) drops in
+    let p := enqueue_all p invalids in
     let '(gapped, l) :=
       if negb (l_empty l) && (match sm_get (txs l) nonce with None => true | Some _ => false end)
       then l_cap l 0 else ([], l) in
-    let p := fold_left (fun p t => snd (enqueue_tx p t)) gapped p in
+    let p := enqueue_all (put_p p addr l) gapped in
+    (* only with the proposed repair: postpone everything above the first missing nonce *)
+    let '(gapped2, l) :=
+      if gapfix (cfg p) && negb (l_empty l) then
+        let next := nonce + N.of_nat (length (run_from (length (items (txs l))) (items (txs l)) nonce)) in
+        let '(inv, m) := sm_filter (txs l) (fun t => N.ltb next (t_nonce t)) in
+        (inv, mkList (strict l) m (costcap l) (gascap l))
+      else ([], l) in
+    let p := enqueue_all (put_p p addr l) gapped2 in
     if l_empty l
     then set_beats (set_pending p (adel (pending p) addr)) (adel (beats p) addr)
-    else set_pending p (aset (pending p) addr l)
+    else p
   end.
 Definition demote_unexecutables (p : pool) (ord : list N) : pool :=
   fold_left demote_account (order_by ord (akeys (pending p))) p.
